@@ -15,6 +15,8 @@ import (
 	"mellium.im/xmlstream"
 	"mellium.im/xmpp"
 	"mellium.im/xmpp/internal/xmpptest"
+	"mellium.im/xmpp/mux"
+	"mellium.im/xmpp/stanza"
 )
 
 func TestGvcAdapterServeNonReplyType(t *testing.T) {
@@ -39,4 +41,73 @@ func TestGvcAdapterServeNonReplyType(t *testing.T) {
 		}
 	}
 	fmt.Println("NOT-REPRODUCED serve: non-reply iq types do not suppress the automatic error")
+}
+
+// A get IQ without payload on a session served by the multiplexer: it must be
+// answered (service-unavailable) and the stanzas after it must still be served.
+func TestGvcAdapterServeEmptyIQThroughMux(t *testing.T) {
+	var out bytes.Buffer
+	rw := struct {
+		io.Reader
+		io.Writer
+	}{strings.NewReader(`<iq xmlns="jabber:client" type="get" id="e1"/><message xmlns="jabber:client" id="after"><body>x</body></message>`), &out}
+	s := xmpptest.NewClientSession(0, rw)
+	sawMessage := false
+	m := mux.New("jabber:client", mux.MessageFunc("", xml.Name{Local: "body"}, func(stanza.Message, xmlstream.TokenReadEncoder) error {
+		sawMessage = true
+		return nil
+	}))
+	err := s.Serve(m)
+	if !strings.Contains(out.String(), "service-unavailable") || !sawMessage {
+		fmt.Printf("REPRODUCED serve: <iq type='get' id='e1'/> through the multiplexer: answered=%v, later message served=%v, Serve returned %v, wire=%q\n", strings.Contains(out.String(), "service-unavailable"), sawMessage, err, out.String())
+		t.Fail()
+		return
+	}
+	fmt.Println("NOT-REPRODUCED serve: an empty get IQ is answered with service-unavailable and serving continues")
+}
+
+// Attributes of a foreign namespace that happen to be called id or type are
+// not the stanza's id and type.
+func TestGvcAdapterServePrefixedIDType(t *testing.T) {
+	bad := false
+	for _, in := range []string{
+		`<iq xmlns="jabber:client" xmlns:x="urn:x" id="a" x:id="b" type="get"><q xmlns="urn:example"/></iq>`,
+		`<iq xmlns="jabber:client" xmlns:x="urn:x" id="a" type="get" x:type="result"><q xmlns="urn:example"/></iq>`,
+	} {
+		var out bytes.Buffer
+		rw := struct {
+			io.Reader
+			io.Writer
+		}{strings.NewReader(in), &out}
+		s := xmpptest.NewClientSession(0, rw)
+		_ = s.Serve(nil)
+		if !strings.Contains(out.String(), `id="a"`) || !strings.Contains(out.String(), "service-unavailable") {
+			fmt.Printf("REPRODUCED serve: %s was answered with %q (want one service-unavailable error with id \"a\")\n", in, out.String())
+			bad = true
+		}
+	}
+	if bad {
+		t.Fail()
+		return
+	}
+	fmt.Println("NOT-REPRODUCED serve: prefixed id/type attributes are ignored")
+}
+
+// The automatic error reply goes to the sender named by the unqualified from
+// attribute, not to a prefixed attribute of another namespace called from.
+func TestGvcAdapterServePrefixedFrom(t *testing.T) {
+	in := `<iq xmlns="jabber:client" xmlns:x="urn:x" x:from="mallory@example.com" from="juliet@example.org/b" type="get" id="d"><q xmlns="urn:example"/></iq>`
+	var out bytes.Buffer
+	rw := struct {
+		io.Reader
+		io.Writer
+	}{strings.NewReader(in), &out}
+	s := xmpptest.NewClientSession(0, rw)
+	_ = s.Serve(nil)
+	if strings.Contains(out.String(), "mallory") || !strings.Contains(out.String(), `to="juliet@example.org/b"`) {
+		fmt.Printf("REPRODUCED serve: %s was answered with %q (want the error addressed to juliet@example.org/b)\n", in, out.String())
+		t.Fail()
+		return
+	}
+	fmt.Println("NOT-REPRODUCED serve: the automatic reply is addressed to the unqualified from attribute")
 }
